@@ -641,6 +641,57 @@ theorem config_refusals (mac : String → MacAlg) (c : ClientCfg) :
               cases he
 
 
+
+theorem sha1_size : digestSize Gen.aesDefaultMac = some 20 := by decide +kernel
+
+/-- **Key splitting / derivation of `aes_factory(algo,key)`**: an accepted key either has exactly the length
+`cbc key ‖ 20-byte sha1 key` and is cut there (the two keys are disjoint segments of the configured key), or
+it is at least as long as the CBC key and BOTH keys are derived from it by HMAC (sha256 for keys up to 256
+bits, else sha512) over two DIFFERENT one-byte labels; any other length is refused. -/
+theorem aes_factory_keys (mac : String → MacAlg) (algo : String) (k : Bytes) (cks : Nat)
+    (hcks : cbcKeySize algo = some cks) :
+    (k.length = cks + 20 →
+      aesFactoryNew mac algo k = .ok (.aes algo (k.take cks) "sha1" (k.drop cks)) ∧ k.take cks ++ k.drop cks = k) ∧
+    (k.length ≠ cks + 20 → cks ≤ k.length → cks * 8 < 512 →
+      ∃ name, (name = "sha256" ∧ k.length * 8 ≤ 256 ∨ name = "sha512" ∧ 256 < k.length * 8) ∧
+        aesFactoryNew mac algo k =
+          .ok (.aes algo (((mac name).tag k [48]).take cks) "sha1" (((mac name).tag k [1]).take 20))) ∧
+    (k.length ≠ cks + 20 → k.length < cks → aesFactoryNew mac algo k = .error .badKeyLength) ∧
+    Gen.aesDeriveLabel1 ≠ Gen.aesDeriveLabel2 := by
+  have hsplit : ∀ a b c, Gen.aesKeySplit a b c = decide (a = b + c) := by
+    intro a b c; simp [Gen.aesKeySplit]
+  have hder : ∀ a b, Gen.aesKeyDerive a b = (decide (a ≥ b) && decide (b * 8 < 512)) := fun _ _ => rfl
+  have hsmall : ∀ a, Gen.aesDeriveSmall a = decide (a * 8 ≤ 256) := fun _ => rfl
+  refine ⟨?_, ?_, ?_, by decide⟩
+  · intro hl
+    unfold aesFactoryNew
+    rw [hcks, sha1_size]
+    simp only [hsplit, hl, decide_true, if_true]
+    refine ⟨?_, List.take_append_drop _ _⟩
+    have : (k.drop cks).take 20 = k.drop cks := List.take_of_length_le (by simp; omega)
+    rw [this]; rfl
+  · intro hl hge h512
+    unfold aesFactoryNew
+    rw [hcks, sha1_size]
+    simp only [hsplit, hl, decide_false, Bool.false_eq_true, if_false, hder, hsmall]
+    have h1 : (decide (k.length ≥ cks) && decide (cks * 8 < 512)) = true := by simp [hge, h512]
+    rw [if_pos h1]
+    by_cases hs : k.length * 8 ≤ 256
+    · refine ⟨"sha256", Or.inl ⟨rfl, hs⟩, ?_⟩
+      simp only [hs, decide_true, if_true]
+      rfl
+    · refine ⟨"sha512", Or.inr ⟨rfl, by omega⟩, ?_⟩
+      simp only [hs, decide_false, Bool.false_eq_true, if_false]
+      rfl
+  · intro hl hlt
+    unfold aesFactoryNew
+    rw [hcks, sha1_size]
+    simp only [hsplit, hl, decide_false, Bool.false_eq_true, if_false, hder]
+    have h1 : ¬ ((decide (k.length ≥ cks) && decide (cks * 8 < 512)) = true) := by
+      simp; intro h; omega
+    rw [if_neg h1]
+
+
 /-! ## the run-time judge is a theorem about the model -/
 
 /-- loading a cookie whose cipher text decrypts to `time_t t ‖ d` with `now ≤ t` succeeds with `(d, t)` -/
